@@ -281,7 +281,7 @@ func suiteStream(o *Out, r *Rng, n int, tier string) {
 			SkipNums: r.Intn(3) == 0, ForkBias: []int{0, 1, 2, 3}[r.Intn(4)], LibPolicy: []int{0, 0, 1, 2}[r.Intn(4)]}
 		t := genTree(r, to)
 		L := append([]TBlock{t.Root}, arrival(r, t.Blocks, 3)...)
-		c := stCase{custom: -1, kept: []int{100, 100, 100, 100, 0, 1, 2, 5}[r.Intn(8)], bs: 100}
+		c := stCase{custom: -1, kept: []int{100, 100, 100, 0, 1, 2, 3, 5}[r.Intn(8)], bs: 100}
 		// the final canonical chain
 		endF, _ := scratch(L, forkable.WithExclusiveLIB(bstream.NewBlockRef(t.Root.ID, t.Root.Num)), forkable.WithKeptFinalBlocks(100000))
 		_, headID, _, _, err := endF.HeadInfo()
@@ -325,7 +325,7 @@ func suiteStream(o *Out, r *Rng, n int, tier string) {
 		for k := 3; k < len(L)-2; k++ {
 			_, ev := scratch(L[:k+1], forkable.HoldBlocksUntilLIB(), forkable.WithKeptFinalBlocks(c.kept))
 			if libOf(ev) >= lastFile {
-				i0 = k + r.Intn(3)
+				i0 = k + []int{0, 0, 1, 2}[r.Intn(4)]
 				if i0 > len(L)-2 {
 					i0 = len(L) - 2
 				}
@@ -426,6 +426,18 @@ func suiteStream(o *Out, r *Rng, n int, tier string) {
 				}
 				if len(fc) > 0 {
 					cr = fc[r.Intn(len(fc))]
+				}
+			}
+			if r.Bool() { // prefer cursors whose LIB is older than the hub window while their block is inside it
+				var wc []curRec
+				for _, e := range cand {
+					if parseRefTok(e.lib).Num() < lowest0 && parseRefTok(e.blk).Num() >= lowest0 {
+						wc = append(wc, e)
+					}
+				}
+				if len(wc) > 0 {
+					cr = wc[r.Intn(len(wc))]
+					o.Stat("stream.start.cursor_lib_below_hub_window", 1)
 				}
 			}
 			c.cur = &cr
